@@ -793,6 +793,9 @@ for adj in row_it: graph.get_successor_nodes_by_index(&v)
         graph.knows(source) && target.is_some() && !graph.knows(target.unwrap()) ==> is_err_kind(r, ErrorKind::NodeNotFound),
         // [C08.single_source.fast_path_never_errs]
         graph.knows(source) && target.is_none() && cutoff.is_none() && !first_only && !with_paths ==> r.is_ok(),
+        // [C08.single_source.errors_are_node_not_found_or_contradictory_paths]
+        r.is_err() ==> is_err_kind(r, ErrorKind::NodeNotFound) || is_err_kind(r, ErrorKind::ContradictoryPaths),
+        r.is_err() && graph.knows(source) && (target.is_some() ==> graph.knows(target.unwrap())) ==> is_err_kind(r, ErrorKind::ContradictoryPaths),
 //@ end
 
 // A4: assumed contract on std: <[T]>::contains is membership under the element type's == (spec equality for the name type, A2)
@@ -846,5 +849,103 @@ for path in pit: &self.paths
 //@ end
 }
 
+
+// ---- multi_source: guards, then one single_source per source (sequentially or through rayon) ----
+//@ extract const src/algorithms/shortest_path/dijkstra.rs SERIAL_TO_PARALLEL_THRESHOLD
+//@ end
+#[verifier::external_body]
+pub fn vrayon_threads() -> usize { unimplemented!() }
+// the optional target, when given, is a node of the graph (closure specifications may only borrow the captured option)
+pub open spec fn opt_known<T: Eq + PartialOrd + Send + Sync, A: Clone>(g: &Graph<T, A>, t: &Option<T>) -> bool {
+    t.is_some() ==> g.knows(t.unwrap())
+}
+// R-ext (A5): `v.into_par_iter().map(f).collect::<Result<Vec<_>, Error>>()`, the same over `into_iter()`, and
+// `pairs.into_iter().collect::<HashMap>()` target local declarations with ASSUMED contracts: Ok(all results in order) if f returned
+// Ok for every element, otherwise one of the errors f returned; the closures f stay in place and are verified
+pub open spec fn try_all<I, O, F: Fn(I) -> Result<O, Error>>(v: Seq<I>, f: F, r: Result<Vec<O>, Error>) -> bool {
+    &&& r.is_ok() ==> r.unwrap()@.len() == v.len() && forall|i: int| 0 <= i < v.len() ==> call_ensures(f, (v[i],), Ok(#[trigger] r.unwrap()@[i]))
+    &&& match r { Err(e) => exists|i: int| 0 <= i < v.len() && call_ensures(f, (#[trigger] v[i],), Err(e)), Ok(_) => true }
+}
+#[verifier::external_body]
+pub fn vpar_try_map_collect<I: Send, O: Send, F: Fn(I) -> Result<O, Error> + Sync + Send>(v: Vec<I>, f: F) -> (r: Result<Vec<O>, Error>)
+    requires forall|i: int| 0 <= i < v@.len() ==> call_requires(f, (#[trigger] v@[i],)),
+    ensures try_all(v@, f, r),
+{ unimplemented!() }
+#[verifier::external_body]
+pub fn vtry_map_collect<I, O, F: Fn(I) -> Result<O, Error>>(v: Vec<I>, f: F) -> (r: Result<Vec<O>, Error>)
+    requires forall|i: int| 0 <= i < v@.len() ==> call_requires(f, (#[trigger] v@[i],)),
+    ensures try_all(v@, f, r),
+{ unimplemented!() }
+#[verifier::external_body]
+pub fn vpairs_to_hashmap<K: Eq + Hash, V>(v: Vec<(K, V)>) -> (r: HashMap<K, V>)
+    ensures forall|i: int| 0 <= i < v@.len() ==> r@.contains_key((#[trigger] v@[i]).0),
+{ v.into_iter().collect() }
+// what one closure call yields: the source paired with its map, or single_source's error (never NodeNotFound: names were checked)
+pub open spec fn source_result_ok<T, V>(source: T, o: Result<(T, V), Error>) -> bool {
+    &&& o.is_ok() ==> o.unwrap().0 == source
+    &&& match o { Err(e) => e.kind == ErrorKind::ContradictoryPaths, Ok(_) => true }
+}
+
+//@ extract fn src/algorithms/shortest_path/dijkstra.rs multi_source props=C08,C20
+//@ rewrite
+) -> Result<HashMap<T, HashMap<T, ShortestPathInfo<T>>>, Error>
+//@ with
+) -> (r: Result<HashMap<T, HashMap<T, ShortestPathInfo<T>>>, Error>)
+//@ rewrite
+rayon::current_num_threads()
+//@ with
+vrayon_threads()
+//@ rewrite
+true => sources
+            .into_par_iter()
+            .map(|source| {
+//@ with
+true => vpar_try_map_collect(sources, |source: T| -> (o: Result<(T, HashMap<T, ShortestPathInfo<T>>), Error>)
+                requires graph.knows(source), graph.wf_nodes(), graph.wf_rows(), opt_known(graph, &target),
+                ensures source_result_ok(source, o),
+            {
+//@ rewrite
+            })
+            .collect::<Result<Vec<_>, Error>>()?,
+        false => sources
+            .into_iter()
+            .map(|source| {
+//@ with
+            })?,
+        false => vtry_map_collect(sources, |source: T| -> (o: Result<(T, HashMap<T, ShortestPathInfo<T>>), Error>)
+                requires graph.knows(source), graph.wf_nodes(), graph.wf_rows(), opt_known(graph, &target),
+                ensures source_result_ok(source, o),
+            {
+//@ rewrite
+            })
+            .collect::<Result<Vec<_>, Error>>()?,
+    };
+    Ok(shortest_paths.into_iter().collect())
+//@ with
+            })?,
+    };
+    let ghost spv = shortest_paths@;
+    let out = vpairs_to_hashmap(shortest_paths);
+    proof {
+        assert forall|i: int| 0 <= i < sv.len() implies out@.contains_key(#[trigger] sv[i]) by {
+            assert(spv[i].0 == sv[i]);
+        }
+    }
+    Ok(out)
+//@ before let parallel =
+    let ghost sv = sources@;
+//@ spec
+    requires
+        graph.wf_nodes(),
+        graph.wf_rows(),
+    ensures
+        // [C08.multi_source.error_channel]
+        !(forall|i: int| 0 <= i < sources@.len() ==> graph.knows(#[trigger] sources@[i])) ==> is_err_kind(r, ErrorKind::NodeNotFound),
+        target.is_some() && !graph.knows(target.unwrap()) ==> is_err_kind(r, ErrorKind::NodeNotFound),
+        // [C08.multi_source.a_failing_search_is_reported_not_unwrapped]
+        r.is_err() ==> is_err_kind(r, ErrorKind::NodeNotFound) || is_err_kind(r, ErrorKind::ContradictoryPaths),
+        // [C08.multi_source.one_entry_per_source]
+        r.is_ok() ==> forall|i: int| 0 <= i < sources@.len() ==> r.unwrap()@.contains_key(#[trigger] sources@[i]),
+//@ end
 } // verus!
 fn main() {}
